@@ -574,6 +574,103 @@ fn large_record_case(case_seed: u64, r: &mut Report, args: &Args) {
     r.eval(hash_combine(case_seed, size as u64), true);
 }
 
+/// Checkpoints to changing snapshot paths (A/B alternation, a backup moved away and replaced),
+/// including checkpoints that follow one another with no durable write in between: at every
+/// quiescent point the files a crash would leave - the log plus the snapshot the LATEST successful
+/// checkpoint() call wrote - must recover to exactly the live state (immediate sync: every write that
+/// returned is acknowledged).
+fn ckpt_paths_case(case_seed: u64, r: &mut Report, args: &Args) {
+    let mut rng = Rng::new(case_seed);
+    let scratch = args.scratch_dir("c02paths");
+    let dir = scratch.join("live");
+    std::fs::create_dir_all(&dir).unwrap();
+    let cfg = WalConfig::default();
+    let replay = json!({"part": "ckpt-paths", "case_seed": case_seed});
+    let store = match TensorStore::open_durable(dir.join(WAL), cfg.clone()) {
+        Ok(s) => s,
+        Err(e) => {
+            r.inconclusive(&format!("open_durable: {}", e));
+            return;
+        }
+    };
+    let val = |id: i64| {
+        let mut d = TensorData::new();
+        d.set("v", tensor_store::TensorValue::Scalar(tensor_store::ScalarValue::Int(id)));
+        d
+    };
+    let digest = |s: &TensorStore| -> View { view(s).into_iter().map(|(k, v)| (k, format!("{:016x}/{}", hash_str(&v), v.len()))).collect() };
+    let names = ["a.snap", "b.snap", "c.snap"];
+    let mut latest: Option<&str> = None;
+    let mut wid = 0i64;
+    let mut trace: Vec<String> = Vec::new();
+    let steps = 6 + rng.below(14);
+    let mut idle_ckpts_to_other_path = 0u64;
+    let mut writes_since_ckpt = 0u64;
+    for step in 0..steps {
+        match rng.below(10) {
+            0..=4 => {
+                let k = format!("k:{}", rng.below(8));
+                wid += 1;
+                let ok = if rng.chance(1, 4) { store.delete_durable(&k).is_ok() } else { store.put_durable(k.clone(), val(wid)).is_ok() };
+                trace.push(format!("write({})={}", k, ok));
+                writes_since_ckpt += 1;
+            }
+            _ => {
+                // mostly another path than the last one; sometimes the same; sometimes twice in a row
+                let name = if latest.is_some() && rng.chance(1, 4) { latest.unwrap() } else { *rng.pick(&names) };
+                match store.checkpoint(dir.join(name)) {
+                    Ok(_) => {
+                        if writes_since_ckpt == 0 && latest.is_some() && latest != Some(name) {
+                            idle_ckpts_to_other_path += 1;
+                        }
+                        latest = Some(name);
+                        writes_since_ckpt = 0;
+                        trace.push(format!("checkpoint({})=ok", name));
+                        r.count("ckpt_paths_checkpoints", 1);
+                    }
+                    Err(e) => {
+                        trace.push(format!("checkpoint({})=Err({})", name, e));
+                        r.inconclusive("checkpoint refused");
+                        return;
+                    }
+                }
+            }
+        }
+        // a crash right here (quiescent): copy the directory, recover from the copy
+        if rng.chance(1, 3) || step + 1 == steps {
+            let live = digest(&store);
+            let img = scratch.join(&format!("img{}", step));
+            std::fs::create_dir_all(&img).unwrap();
+            for e in std::fs::read_dir(&dir).unwrap().flatten() {
+                let _ = std::fs::copy(e.path(), img.join(e.file_name()));
+            }
+            let snap = latest.map(|n| img.join(n));
+            let rec = TensorStore::recover(img.join(WAL), &cfg, snap.as_deref());
+            r.count("ckpt_paths_images_recovered", 1);
+            match rec {
+                Err(e) => {
+                    r.violation("ckpt-paths:recover-error", format!("{} after {:?}", e, trace), replay);
+                    return;
+                }
+                Ok(rec) => {
+                    let got = digest(&rec);
+                    if got != live {
+                        r.violation(
+                            "ckpt-paths:recovered-state-differs-from-live-state",
+                            format!("recovering the log + the snapshot of the latest checkpoint ({:?}) shows {:?}, the live store showed {:?}; history {:?}", latest, got, live, trace),
+                            replay,
+                        );
+                        return;
+                    }
+                }
+            }
+            let _ = std::fs::remove_dir_all(&img);
+        }
+    }
+    r.count("ckpt_paths_idle_checkpoints_to_another_path", idle_ckpts_to_other_path);
+    r.eval(hash_combine(case_seed, 0xC4B7), latest.is_some());
+}
+
 /// child mode for the strace leg: `child-ack <dir> <seed> <mode>`; writes "ACK <n>" to fd 1 right
 /// after every durable call that returned Ok (immediate mode) or after every successful sync()
 /// (batched / manual), so the tracer can check that the log was fsynced before the ack.
@@ -679,7 +776,9 @@ fn main() {
     if let Some(p) = &args.replay {
         let v: Value = serde_json::from_str(&std::fs::read_to_string(p).expect("replay")).expect("json");
         let rp = &v["replay"];
-        if rp["part"].as_str() == Some("large-record") {
+        if rp["part"].as_str() == Some("ckpt-paths") {
+            ckpt_paths_case(rp["case_seed"].as_u64().unwrap(), &mut total, &args);
+        } else if rp["part"].as_str() == Some("large-record") {
             large_record_case(rp["case_seed"].as_u64().unwrap(), &mut total, &args);
         } else {
             run_case(rp["case_seed"].as_u64().unwrap(), &mut total, &args, rp["image"].as_str());
@@ -692,16 +791,19 @@ fn main() {
         let a3 = args.clone();
         let rep = par_cases(3, args.seed ^ 0xB16, args.by_tier(6u64, 60u64), args.budget(30, 240), move |_i, s, r| large_record_case(s, r, &a3));
         total.merge(rep);
+        let a4 = args.clone();
+        let rep = par_cases(args.threads, args.seed ^ 0xC4B7, args.by_tier(300u64, 20_000u64), args.budget(10, 120), move |_i, s, r| ckpt_paths_case(s, r, &a4));
+        total.merge(rep);
     }
     let meta = Meta {
         property: "C02",
-        rule: "one case = a seeded history of 6-35 put_durable/delete_durable/sync/checkpoint calls (all value kinds, key classes plain/emb/node/edge/table/blob/cache, sync modes immediate/batched/manual, 10% with a tiny WAL size limit to force rotation) on the real TensorStore; crash images = directory after every call, log cut at sampled or all bytes inside each call's on-disk growth (every record: header bytes, payload middle, last byte, record boundaries of multi-record calls), directory inside checkpoint()/rotate() at the hook points, partial snapshot temp files; each image recovered with TensorStore::recover and compared with the live views S_lo..S_hi; 3-8 images per case are continued (write more, crash again, up to 3 crashes); plus a few histories containing one acknowledged value of 1 MiB / 16 MiB / 32 MiB. Distinct = hash of (history, mode); non-trivial = history leaves a non-empty state and produced > 5 crash images.",
+        rule: "one case = a seeded history of 6-35 put_durable/delete_durable/sync/checkpoint calls (all value kinds, key classes plain/emb/node/edge/table/blob/cache, sync modes immediate/batched/manual, 10% with a tiny WAL size limit to force rotation) on the real TensorStore; crash images = directory after every call, log cut at sampled or all bytes inside each call's on-disk growth (every record: header bytes, payload middle, last byte, record boundaries of multi-record calls), directory inside checkpoint()/rotate() at the hook points, partial snapshot temp files; each image recovered with TensorStore::recover and compared with the live views S_lo..S_hi; 3-8 images per case are continued (write more, crash again, up to 3 crashes); plus a few histories containing one acknowledged value of 1 MiB / 16 MiB / 32 MiB; plus histories whose checkpoints go to changing snapshot paths (also back to back without a write in between), recovered at quiescent points from the log and the snapshot of the latest successful checkpoint. Distinct = hash of (history, mode); non-trivial = history leaves a non-empty state and produced > 5 crash images.",
         assumptions: vec![
             "crash = process crash: the files hold a prefix of the bytes written; page-cache loss (power failure) cannot be observed here - fsync ordering is checked separately by the strace leg".into(),
             "under batched/manual sync a write counts as acknowledged only once a later explicit sync() or checkpoint() returned".into(),
             "_cache: keys are excluded from every comparison (documented non-durable)".into(),
         ],
-        floors: if args.replay.is_some() { vec![] } else { vec![("evaluations", 20), ("crash_images_recovered", 1500), ("torn_record_images", 300), ("mid_checkpoint_or_rotation_images", 20), ("chained_sessions", 10), ("large_record_recoveries", 2)] },
+        floors: if args.replay.is_some() { vec![] } else { vec![("evaluations", 20), ("crash_images_recovered", 1500), ("torn_record_images", 300), ("mid_checkpoint_or_rotation_images", 20), ("chained_sessions", 10), ("large_record_recoveries", 2), ("ckpt_paths_images_recovered", 300), ("ckpt_paths_idle_checkpoints_to_another_path", 30)] },
         exhaustive: false,
     };
     write_result(&args, &meta, &total, started);
